@@ -59,12 +59,42 @@ def configured_sites(cfg, m, kind, st):
         dep = deployed_in_files(cfg, m, x["site"], types.get(x["site"]))
         out.append({"id": x["site"], "freq": None if kind == "stationary" else mcfg.get("surveys_per_year"),
                     "deploy": dep, "months": list(mcfg.get("months", x["months"])),
-                    "years": list(mcfg.get("years") or []), "S": x["S"]})
+                    "years": list(mcfg.get("years") or []),
+                    "S": 0 if kind == "stationary" else mcfg.get("survey_time", x["S"]), "S_planner": x["S"]})
     return out
+
+
+def configured_crews(cfg, m):
+    """(crew_count as configured, LDAR-Sim's documented year-round estimate) for a mobile routine method, from the
+    method parameters only: ceil(#sites / (sites per crew-day x days between two surveys of a site)); a follow-up
+    method with crew_count 0 gets 1 crew; None where the leaf is not interpreted (per-site survey times / frequencies)"""
+    import math
+
+    mc = cfg["methods"][m]
+    if mc.get("deployment_type") != "mobile":
+        return None, None
+    want = mc.get("crew_count", 0)
+    if mc.get("is_follow_up"):
+        return want, 1
+    foreign = [c for c in list(cfg.get("site_extra_cols") or {}) + list(cfg.get("site_type_extra_cols") or {})
+               if c.startswith(m + "_") and c != f"{m}_site_deployment"]
+    if foreign:
+        return want, None
+    tb = mc.get("t_bw_sites", [0])
+    avg_t = sum(tb) / len(tb)
+    per_day = (mc.get("max_workday", 24) * 60 - avg_t) / (mc["survey_time"] + avg_t)
+    if per_day <= 0:
+        return want, None          # no survey fits into a workday: the documented estimate is undefined
+    return want, math.ceil(len(cfg["sites"]) / (per_day * (365 / mc["surveys_per_year"])))
 
 
 def build(cfg, events):
     """events of one (program, simulation) -> {method: (case, static, trace, extra)}"""
+    try:
+        from harness.props import _crew_wholerun as CW
+        workable = CW.survey_workable(events, cfg)   # envelope + switch from the configuration, cube values from "wx"
+    except Exception:
+        workable = None
     start = date(*cfg["start"])
     out = {}
     cur = {}
@@ -122,7 +152,9 @@ def build(cfg, events):
                     stt = "P"
                 else:
                     stt = "U"
-                outs.append([i, stt, p1 - p0, p1, p1 - p0, bool(visited), len(evs)])
+                wk = workable.get(id(ev)) if workable is not None else None
+                outs.append([i, stt, p1 - p0, p1, p1 - p0, bool(visited) if wk is None else bool(wk), len(evs),
+                             "code" if wk is None else "cfg"])
             rec["outcomes"] = outs
             # completed surveys as the survey_site wrapper saw them (site, date of the call)
             rec["completed_reports"] = [[o[0], list(rec["date"])] for o in outs if o[1] == "C"]
@@ -178,6 +210,7 @@ def stationary_workable_oracle(ctx, cfgkey, m, info):
     for rec in info["trace"]:
         for o in rec["outcomes"]:
             if len(o) > 5:
+                ctx.count("stationary-workable-from-" + (o[7] if len(o) > 7 else "code"))
                 if (o[1] == "C") != o[5]:
                     ctx.violate("C06:wholerun:stationary-observed-iff-workable",
                                 f"site {o[0]} day {rec['day']}: completed={o[1] == 'C'} workable={o[5]}",
@@ -190,6 +223,14 @@ def stationary_workable_oracle(ctx, cfgkey, m, info):
 def analyse(ctx, prop, cfg, res, oracle):
     """conformance + oracles for every schedule of every (program, simulation)"""
     key = {"seed_cfg": cfg.get("_verif_seed"), "ndays": res.ndays}
+    if res.rc != 0 and cfg.get("wide_applied") and ("_estimate_method_crews_required" in res.log) and \
+            ("OverflowError" in res.log or "ZeroDivisionError" in res.log):
+        # a wide configuration in which no survey fits into a workday: LDAR-Sim's crew estimate divides by zero while
+        # the methods are built (before any schedule exists).  Not a statement of C06 / C07; counted, never silent.
+        ctx.count("skip:wide-run-crashed-in-crew-estimate(no survey fits a workday)")
+        ctx.note(f"wide configuration {key} {[(w['path'][1:], w['value']) for w in cfg['wide_applied']]} crashed in "
+                 f"Method._estimate_method_crews_required (division by zero); skipped")
+        return
     if res.rc != 0:
         # never a silent skip: a crashing whole run is a broken obligation (the component stages go on searching)
         ctx.broke(f"{prop}: whole-run configuration {key} crashed (rc={res.rc})", res.log[-1500:])
@@ -201,15 +242,34 @@ def analyse(ctx, prop, cfg, res, oracle):
         for m, info in per.items():
             case, static, trace = info["case"], info["static"], info["trace"]
             tag = {"wholerun": {"cfg_seed": cfg.get("_verif_seed"), "program": tr["prog"], "sim": tr["sim"], "method": m,
-                                "two_run": cfg.get("_two_run")}}
+                                "two_run": cfg.get("_two_run"), "wide": cfg.get("_verif_wide")}}
             case = dict(case, **tag)
             mcfg = (cfg.get("methods") or {}).get(m, {})
+            for wa in cfg.get("wide_applied") or []:
+                if wa["path"][0] == "m" and wa["path"][1] == m:
+                    ctx.count("wide:" + wa["tag"] + ":" + wa["path"][-1] + "=" + str(wa["value"])[:24])
+            if mcfg and mcfg.get("deployment_type") == "mobile":
+                used = case["crews"]
+                want, est = configured_crews(cfg, m)
+                expect = want if want else est
+                if expect is None:
+                    ctx.count("skip:crews-not-derivable-from-configuration(per-site overrides)")
+                else:
+                    ctx.count("crews-from-" + ("configuration" if want else "documented-estimate"))
+                    case["_crews_used"], case["_crew_reports"], case["_crews_estimate"] = used, used, est
+                    case["crews"] = want                      # the model and the oracle get the CONFIGURED crews
+                    if not want:
+                        case["_crews_estimate"] = est
+                    if used != expect:
+                        ctx.violate(prop + ":wholerun:deployed-crews-differ-from-configured",
+                                    f"method {m}: crew_count {want} configured (documented estimate {est}), the schedule "
+                                    f"was built with {used} crews",
+                                    {"wholerun": tag["wholerun"], "case": {"wholerun": tag["wholerun"]}})
+                for cs in case["sites"]:
+                    if "S_planner" in cs and cs["S_planner"] != cs["S"]:
+                        ctx.count("skip:survey-time-of-site-differs-from-method-survey_time")
+                        cs["S"] = cs["S_planner"]
             if prop == "C06" and mcfg:
-                want = mcfg.get("crew_count", 0)
-                if mcfg.get("deployment_type") == "mobile" and want and case["crews"] != want:
-                    ctx.violate("C06:wholerun:deployed-crews-differ-from-configured",
-                                f"method {m}: crew_count {want} configured, the schedule was built with {case['crews']} crews",
-                                {"wholerun": tag["wholerun"], "case": {"wholerun": tag["wholerun"]}})
                 yrs = mcfg.get("years") or []
                 for st in static:
                     exp = sorted(yrs) if yrs else sorted(st["sim_years"])
@@ -247,7 +307,31 @@ def analyse(ctx, prop, cfg, res, oracle):
                                 sum(1 for r in trace for o in r["outcomes"] if o[1] != "C") > 0))
 
 
-def configs(ctx, n):
+WIDE_TAGS = ["years", "months", "freq", "crews", "workday", "weather", "followup", "delays", "sims"]
+
+
+def make_cfg(seed, wide=None):
+    """one whole-run configuration, reproducible from (seed, wide)"""
+    from harness import wholerun as W
+
+    rng = random.Random(seed)
+    kw = {"wide": wide} if wide else {}
+    cfg = W.make_config(rng, ndays=rng.choice([150, 250, 400, 500]), n_sites=rng.randint(4, 9), **kw)
+    cfg["_verif_seed"], cfg["_verif_wide"] = seed, wide
+    deploy_columns(rng, cfg)       # deployment flags through the real intake, from both input files
+    return cfg
+
+
+def configs(ctx, n, wide=None):
+    out = []
+    for k in range(n):
+        seed = ctx.rng.randrange(1 << 30)
+        w = wide[k % len(wide)] if isinstance(wide, list) and wide and isinstance(wide[0], (list, bool)) else wide
+        out.append(make_cfg(seed, w))
+    return out
+
+
+def _configs_old(ctx, n):
     from harness import wholerun as W
 
     out = []
@@ -337,7 +421,7 @@ def run_all(ctx, prop, oracle, cfgs=None):
     def one(cfg):
         return cfg, W.run_config(cfg)
 
-    with concurrent.futures.ThreadPoolExecutor(max_workers=ctx.pick(2, 5)) as ex:
+    with concurrent.futures.ThreadPoolExecutor(max_workers=ctx.pick(3, 5)) as ex:
         results = list(ex.map(one, cfgs))
     for cfg, res in results:
         try:
@@ -391,11 +475,23 @@ def mode_stage(ctx, prop, oracle, n):
             shutil.rmtree(wd, ignore_errors=True)
 
 
+def wide_list(ctx):
+    """the `wide` argument of the wide configurations of a tier: the tags that matter for the schedules, single
+    tags and pairs of them, and one all-tags run (quick 2, thorough 9)"""
+    if ctx.quick:
+        return [WIDE_TAGS, True]
+    return [WIDE_TAGS, True, ["crews", "workday"], ["years", "months", "freq"], ["weather", "followup"],
+            ["crews"], ["workday"], ["freq", "months"], ["sims", "delays", "years"]]
+
+
 def run_c07(ctx):
     from harness.props import c07
 
     orc = lambda c, case, static, trace: c07.oracle_trace(c, case, trace, static=static)  # noqa: E731
-    run_all(ctx, "C07", orc)
+    wl = wide_list(ctx)
+    cfgs = configs(ctx, ctx.pick(1, 8)) + configs(ctx, len(wl), wl)
+    ctx.count("wholerun_wide_configs", len(wl))
+    run_all(ctx, "C07", orc, cfgs)
     mode_stage(ctx, "C07", orc, ctx.pick(1, 3))
 
 
@@ -403,7 +499,9 @@ def run_c06(ctx):
     from harness.props import c06
 
     orc = lambda c, case, static, trace: c06.oracle_trace(c, case, static, trace)  # noqa: E731
-    cfgs = configs(ctx, ctx.pick(1, 8))                                   # drawn here: the seeds stay reproducible
+    wl = wide_list(ctx)
+    cfgs = configs(ctx, ctx.pick(1, 6)) + configs(ctx, len(wl), wl)       # drawn here: the seeds stay reproducible
+    ctx.count("wholerun_wide_configs", len(wl))
     seeds = [ctx.rng.randrange(1 << 30) for _ in range(ctx.pick(1, 4))]
     seeds[0] = seeds[0] - seeds[0] % 3 + 1                               # the first history edits parameters only
     if len(seeds) > 1:
@@ -463,10 +561,7 @@ def _replay(ctx, prop, inp):
         for v in ctx.violations:
             print("oracle:", v["signature"], "-", v["what"])
         return 1 if ctx.violations else 0
-    rng = random.Random(seed)
-    cfg = W.make_config(rng, ndays=rng.choice([150, 250, 400, 500]), n_sites=rng.randint(4, 9))
-    cfg["_verif_seed"] = seed
-    deploy_columns(rng, cfg)
+    cfg = make_cfg(seed, w.get("wide"))
     res = W.run_config(cfg)
     try:
         if prop == "C07":
